@@ -1,0 +1,284 @@
+// Copyright 2019 Samaritan Authors
+//
+// Licensed under the Apache License, Version 2.0 (the "License");
+// you may not use this file except in compliance with the License.
+// You may obtain a copy of the License at
+//
+//      http://www.apache.org/licenses/LICENSE-2.0
+//
+// Unless required by applicable law or agreed to in writing, software
+// distributed under the License is distributed on an "AS IS" BASIS,
+// WITHOUT WARRANTIES OR CONDITIONS OF ANY KIND, either express or implied.
+// See the License for the specific language governing permissions and
+// limitations under the License.
+
+//go:build verif
+// +build verif
+
+package redis
+
+import (
+	"bytes"
+	"fmt"
+	"io"
+	"time"
+
+	pbredis "github.com/samaritan-proxy/samaritan/pb/config/protocol/redis"
+	"github.com/samaritan-proxy/samaritan/pb/config/service"
+)
+
+// This file only exists with the build tag "verif". It re-exports a few
+// unexported functions for the model-based verification harness and maps the
+// objects passed to verifhook points to stable identities.
+
+// VerifValue is a plain copy of a RESP value.
+type VerifValue struct {
+	Type  byte
+	Int   int64
+	Text  []byte
+	Null  bool
+	Array []VerifValue
+}
+
+func toVerifValue(v *RespValue) VerifValue {
+	out := VerifValue{Type: byte(v.Type), Int: v.Int}
+	switch v.Type {
+	case Array:
+		if v.Array == nil {
+			out.Null = true
+		}
+		for i := range v.Array {
+			out.Array = append(out.Array, toVerifValue(&v.Array[i]))
+		}
+	case BulkString:
+		if v.Text == nil {
+			out.Null = true
+		}
+		out.Text = append([]byte{}, v.Text...)
+	default:
+		out.Text = append([]byte{}, v.Text...)
+	}
+	return out
+}
+
+func fromVerifValue(v VerifValue) *RespValue {
+	out := &RespValue{Type: RespType(v.Type), Int: v.Int}
+	switch RespType(v.Type) {
+	case Array:
+		if !v.Null {
+			out.Array = make([]RespValue, 0, len(v.Array))
+			for _, e := range v.Array {
+				out.Array = append(out.Array, *fromVerifValue(e))
+			}
+		}
+	case BulkString:
+		if !v.Null {
+			out.Text = append([]byte{}, v.Text...)
+		}
+	default:
+		out.Text = append([]byte{}, v.Text...)
+	}
+	return out
+}
+
+// VerifDecodeAll decodes messages from r with a decoder of the given buffer
+// size until an error occurs. It returns the decoded values and the error
+// that ended decoding (io.EOF for a clean end).
+func VerifDecodeAll(r io.Reader, bufSize int) ([]VerifValue, error) {
+	d := newDecoder(r, bufSize)
+	var out []VerifValue
+	for {
+		v, err := d.Decode()
+		if err != nil {
+			return out, err
+		}
+		out = append(out, toVerifValue(v))
+	}
+}
+
+// VerifEncode encodes v with an encoder of the given buffer size.
+func VerifEncode(v VerifValue, bufSize int) ([]byte, error) {
+	var b bytes.Buffer
+	e := newEncoder(&b, bufSize)
+	if err := e.Encode(fromVerifValue(v)); err != nil {
+		return nil, err
+	}
+	if err := e.Flush(); err != nil {
+		return nil, err
+	}
+	return b.Bytes(), nil
+}
+
+// VerifBtoi64 exposes btoi64.
+func VerifBtoi64(b []byte) (int64, error) { return btoi64(b) }
+
+// VerifItoa exposes itoa.
+func VerifItoa(i int64) string { return itoa(i) }
+
+// VerifCRC16 exposes crc16.
+func VerifCRC16(b []byte) uint16 { return crc16(b) }
+
+// VerifHashTag exposes hashtag.
+func VerifHashTag(b []byte) []byte { return hashtag(b) }
+
+// VerifSlotOf returns the slot the upstream routes key by.
+func VerifSlotOf(key []byte) int { return int(crc16(hashtag(key)) & (slotNum - 1)) }
+
+// VerifCRC16Tab returns a copy of the CRC table.
+func VerifCRC16Tab() [256]uint16 { return crc16tab }
+
+// VerifSetSlotsRefreshTimers sets the two package level slot refresh timers
+// and returns the previous values.
+func VerifSetSlotsRefreshTimers(freq, minRate time.Duration) (time.Duration, time.Duration) {
+	of, om := slotsRefFreq, slotsRefMinRate
+	slotsRefFreq, slotsRefMinRate = freq, minRate
+	return of, om
+}
+
+// VerifCompressValue runs the value compression of the compress filter
+// (threshold is checked by the caller in the real code).
+func VerifCompressValue(src []byte) []byte {
+	f := &compressFilter{}
+	cpy := append([]byte{}, src...)
+	return f.compress(cpy, pbredis.Compression_SNAPPY)
+}
+
+// VerifDecompressValue runs the value decompression of the compress filter.
+func VerifDecompressValue(src []byte) ([]byte, error) {
+	f := &compressFilter{}
+	return f.decompress(append([]byte{}, src...))
+}
+
+// VerifCompressHeader returns the header put in front of compressed values.
+func VerifCompressHeader() []byte {
+	return append([]byte{}, cpsHdrs[pbredis.Compression_SNAPPY]...)
+}
+
+// VerifCompressRequest runs the compress filter over a request body the way
+// the backend writer does and returns the resulting body and whether the
+// request was answered locally (banned command) together with that answer.
+func VerifCompressRequest(cfg *service.Config, body VerifValue, passes int) (VerifValue, bool, VerifValue) {
+	f := &compressFilter{cfg: newConfig(cfg)}
+	req := newSimpleRequest(fromVerifValue(body))
+	for i := 0; i < passes; i++ {
+		cmd := string(bytes.ToLower(req.Body().Array[0].Text))
+		if f.Do(cmd, req) == Stop {
+			return toVerifValue(req.Body()), true, toVerifValue(req.Response())
+		}
+	}
+	return toVerifValue(req.Body()), false, VerifValue{}
+}
+
+// VerifComposeCursor exposes scanRequest.genCursor.
+func VerifComposeCursor(nodeIdx uint16, nodeCursor uint64) uint64 {
+	return (&scanRequest{}).genCursor(nodeIdx, nodeCursor)
+}
+
+// VerifParseCursor exposes scanRequest.parseCursor.
+func VerifParseCursor(cursor uint64) (uint16, uint64) {
+	return (&scanRequest{}).parseCursor(cursor)
+}
+
+// VerifParseClusterNodes runs parseClusterNodes and returns, per master
+// address, its slots and replica addresses.
+func VerifParseClusterNodes(data string) (map[string][]int, map[string][]string, error) {
+	insts, err := parseClusterNodes(data)
+	if err != nil {
+		return nil, nil, err
+	}
+	slots := make(map[string][]int)
+	replicas := make(map[string][]string)
+	for _, inst := range insts {
+		slots[inst.Addr] = inst.Slots
+		for _, r := range inst.Replicas {
+			replicas[inst.Addr] = append(replicas[inst.Addr], r.Addr)
+		}
+	}
+	return slots, replicas, nil
+}
+
+// VerifIsReadOnly tells whether the proxy classifies cmd as read-only.
+func VerifIsReadOnly(cmd string) bool {
+	_, ok := readOnlyCommands[cmd]
+	return ok
+}
+
+// VerifSupportedCommands returns the names with a handler.
+func VerifSupportedCommands() []string {
+	out := append([]string{}, simpleCommands...)
+	out = append(out, sumResultCommands...)
+	out = append(out, "eval", "mset", "mget", "scan", "hotkey", "ping", "quit", "info", "time", "select")
+	return out
+}
+
+// VerifObj describes an object passed to a verifhook point.
+type VerifObj struct {
+	Kind string   // "client", "session", "simple", "raw", "resp", "upstream", ""
+	Addr string   // remote address for client (backend) and session (downstream peer)
+	Ptr  string   // pointer identity
+	Args []string // request arguments / response text
+}
+
+// VerifDescribe maps an object passed to a verifhook point to an identity.
+func VerifDescribe(obj interface{}) VerifObj {
+	switch v := obj.(type) {
+	case *client:
+		o := VerifObj{Kind: "client", Ptr: fmt.Sprintf("%p", v)}
+		if v != nil && v.conn != nil && v.conn.RemoteAddr() != nil {
+			o.Addr = v.conn.RemoteAddr().String()
+		}
+		return o
+	case *session:
+		o := VerifObj{Kind: "session", Ptr: fmt.Sprintf("%p", v)}
+		if v != nil && v.conn != nil && v.conn.RemoteAddr() != nil {
+			o.Addr = v.conn.RemoteAddr().String()
+		}
+		return o
+	case *simpleRequest:
+		o := VerifObj{Kind: "simple", Ptr: fmt.Sprintf("%p", v)}
+		if v != nil && v.body != nil {
+			o.Args = respArgs(v.body)
+		}
+		return o
+	case *rawRequest:
+		o := VerifObj{Kind: "raw", Ptr: fmt.Sprintf("%p", v)}
+		if v != nil && v.body != nil {
+			o.Args = respArgs(v.body)
+		}
+		return o
+	case *RespValue:
+		o := VerifObj{Kind: "resp", Ptr: fmt.Sprintf("%p", v)}
+		if v != nil {
+			o.Args = []string{string(byte(v.Type))}
+			o.Args = append(o.Args, respArgs(v)...)
+		}
+		return o
+	case *upstream:
+		return VerifObj{Kind: "upstream", Ptr: fmt.Sprintf("%p", v)}
+	}
+	return VerifObj{}
+}
+
+func respArgs(v *RespValue) []string {
+	const maxArgs, maxLen = 4, 64
+	clip := func(b []byte) string {
+		if len(b) > maxLen {
+			b = b[:maxLen]
+		}
+		return string(b)
+	}
+	if v.Type != Array {
+		if v.Type == Integer {
+			return []string{itoa(v.Int)}
+		}
+		return []string{clip(v.Text)}
+	}
+	var out []string
+	for i := range v.Array {
+		if i >= maxArgs {
+			break
+		}
+		out = append(out, clip(v.Array[i].Text))
+	}
+	return out
+}
